@@ -301,9 +301,13 @@ bool comp_reset_comp_data(zckCtx *zck) {
         free(zck->comp.data);
         zck->comp.data = NULL;
         zck->comp.data_size = 0;
-        zck->comp.data_loc = 0;
-        zck->comp.data_idx = NULL;
     }
+    /* The position inside the current chunk and the end-of-data marker belong
+     * to the stream that is being abandoned, whether or not compressed bytes
+     * are pending */
+    zck->comp.data_loc = 0;
+    zck->comp.data_idx = NULL;
+    zck->comp.data_eof = false;
     return true;
 }
 
@@ -764,5 +768,7 @@ ssize_t ZCK_PUBLIC_API zck_get_chunk_data(zckChunk *idx, char *dst,
     if(!seek_data(zck, zck_get_chunk_start(idx), SEEK_SET))
         return -1;
     zck->comp.data_idx = idx;
+    if(!hash_init(zck, &(zck->check_chunk_hash), &(zck->chunk_hash_type)))
+        return -1;
     return comp_read(zck, dst, dst_size, 1);
 }
